@@ -41,13 +41,12 @@ import (
 // avoid switches of the open findings (KNOWN_FINDINGS.d/C02.txt)
 const (
 	avoidThis     = "this_assign"
-	avoidBreakIf  = "break_in_if"
 	avoidStrIndex = "str_index_oob"
 	avoidCompDef  = defsem.CornerCompRedef // decided by the reference unless avoided: then refused, counted
 	avoidBigSum   = defsem.CornerBigSum
 )
 
-var genSwitches = []string{avoidThis, avoidBreakIf, avoidStrIndex}
+var genSwitches = []string{avoidThis, avoidStrIndex}
 
 type Step struct {
 	Prog  *gen.Node `json:"prog"`
@@ -86,10 +85,6 @@ func classTags(p *gen.Node) []string {
 		switch n.K {
 		case "setthis":
 			tags[avoidThis] = true
-		case "break", "continue":
-			if inIf && loop > 0 {
-				tags[avoidBreakIf] = true
-			}
 		}
 		switch n.K {
 		case "while":
@@ -308,21 +303,25 @@ func checkCase(c Case, s *rt.Section) *rt.Failure {
 			s.Discard("vm: work budget or stack capacity")
 			return nil
 		}
-		cur.VMAttrs = vmx.AttrsRepr(vm)
-		cur.RefVars = defsem.StoreRepr(in.Store)
-		if verr != nil {
-			cur.VMErr = verr.Error()
-		} else {
-			cur.VMRet = vmx.Repr(vm.Ret)
-			cur.VMRest = vm.RestInput
-		}
-		if rerr != nil {
-			cur.RefErr = rerr.Error()
-		} else {
-			cur.RefRet = defsem.Repr(ref)
+		// canonical renderings are only needed for a report: built on demand
+		fill := func() {
+			cur.VMAttrs = vmx.AttrsRepr(vm)
+			cur.RefVars = defsem.StoreRepr(in.Store)
+			if verr != nil {
+				cur.VMErr = verr.Error()
+			} else {
+				cur.VMRet = vmx.Repr(vm.Ret)
+				cur.VMRest = vm.RestInput
+			}
+			if rerr != nil {
+				cur.RefErr = rerr.Error()
+			} else {
+				cur.RefRet = defsem.Repr(ref)
+			}
 		}
 		switch {
 		case rerr != nil && verr == nil:
+			fill()
 			if strings.TrimSpace(vm.RestInput) != "" {
 				// the parser stopped early: the error the reference prescribes lies in text that was never run
 				return mkFail("rest", "rest:unconsumed", fmt.Sprintf("VM stopped before %q and returned %s", vm.RestInput, cur.VMRet),
@@ -330,13 +329,16 @@ func checkCase(c Case, s *rt.Section) *rt.Failure {
 			}
 			return mkFail("error", "error:missing:"+errClass(rerr.Error()), "VM returned "+cur.VMRet, rerr.Error())
 		case rerr == nil && verr != nil:
+			fill()
 			return mkFail("error", "error:unexpected:"+errClass(verr.Error()), "VM error: "+verr.Error(), "value "+cur.RefRet)
 		case rerr == nil && verr == nil:
 			if strings.TrimSpace(vm.RestInput) != "" {
+				fill()
 				return mkFail("rest", "rest:unconsumed", fmt.Sprintf("VM stopped before %q and returned %s", vm.RestInput, cur.VMRet),
 					"the whole program is consumed; value "+cur.RefRet)
 			}
 			if ok, why := defsem.EqualVM(ref, vm.Ret); !ok {
+				fill()
 				return mkFail("ret", "ret:"+whyClass(why), why+"; VM returned "+cur.VMRet, "value "+cur.RefRet)
 			}
 		}
@@ -345,6 +347,7 @@ func checkCase(c Case, s *rt.Section) *rt.Failure {
 			if rerr != nil {
 				kind = "after-error"
 			}
+			fill()
 			return mkFail("attrs", "attrs:"+kind+":"+whyClass(why), why+"; VM variables "+cur.VMAttrs, "variables "+cur.RefVars)
 		}
 		if rerr != nil {
@@ -423,7 +426,6 @@ func seqOpts(cfg vmx.Cfg, s *rt.Section, thorough bool) gen.Opts {
 		}
 	}
 	o.ThisAssign = !av[avoidThis]
-	o.BreakInIf = !av[avoidBreakIf]
 	o.StrIndexOOB = !av[avoidStrIndex]
 	o.Avoid = func(name string) bool { return av[name] }
 	return o
